@@ -8,7 +8,7 @@ d=$wt/mutants/$n
 case $cmd in
 verify)
   pkg=$(python3 -c "import json;print(json.load(open('$d/meta.json'))['demo_pkg_dir'])")
-  run=$(python3 -c "import json;print(json.load(open('$d/meta.json'))['demo_run'])")
+  run=$(python3 -c "import json,re;print(re.split(r'\s{2,}\(|\s+#', json.load(open('$d/meta.json'))['demo_run'])[0])")
   cd $wt && git checkout -q -- . && git apply $d/patch.diff || { echo "APPLY-FAILED"; exit 1; }
   touched=$(git diff --name-only | xargs -n1 dirname | sort -u | sed 's#^#./#')
   echo "touched: $touched"
